@@ -1,8 +1,18 @@
 #!/usr/bin/env python3
-"""setup: build every lean_exe driver listed in lean/lakefile.toml"""
-import re, subprocess, os, sys
+"""setup: build the lean_exe drivers of every check registered in MANIFEST.json (+ apidrv).
+Drivers of properties that are not registered yet are attempted too, but their failure is not fatal."""
+import re, subprocess, os, sys, json
 here = os.path.dirname(os.path.dirname(os.path.abspath(__file__)))
 t = open(os.path.join(here, 'lean/lakefile.toml')).read()
 exes = re.findall(r'\[\[lean_exe\]\]\s*name\s*=\s*"([^"]+)"', t)
-rc = subprocess.call(['lake', 'build'] + exes, cwd=os.path.join(here, 'lean'))
+claimed = {c['property_id'] for c in json.load(open(os.path.join(here, 'MANIFEST.json')))['checks']}
+need = {'apidrv'} | {'c%sdrv' % p[1:].lower() for p in claimed}
+rc = 0
+must = [e for e in exes if e in need]
+r = subprocess.call(['lake', 'build'] + must, cwd=os.path.join(here, 'lean'))
+if r != 0:
+    rc = r
+for e in exes:
+    if e not in need:
+        subprocess.call(['lake', 'build', e], cwd=os.path.join(here, 'lean'), stdout=subprocess.DEVNULL, stderr=subprocess.DEVNULL)
 sys.exit(rc)
